@@ -7,7 +7,19 @@ sampled behaviours of the same spec are replayed into a real client/server
 pair with packet-by-packet delivery, comparing the implementation's state
 with the model after every step; the monitors are evaluated on the bytes the
 real sessions received.  A harness sweep covers text encodings with
-multi-byte characters split at every packet boundary."""
+multi-byte characters split at every packet boundary.
+
+Text channels have their own specification (specs/Channel/Text.tla:
+characters of 1..4 bytes written on two data types, every cut of every data
+type's byte stream into packets, senders that empty one buffer in write
+order (asyncssh) and senders that interleave data types freely (any SSH
+peer), receivers with one decoder per data type or one per channel).  TLC
+checks DeliveredIsPrefix / NoDecodeError / NotMisfiled / AllDelivered for
+the design as coded and shows that a single shared decoder is only safe
+against a FIFO sender; every complete packet script TLC enumerates is sent
+by a raw peer to a real text-mode session (client receiving stdout/stderr,
+server receiving stdin), and real asyncssh senders writing the same texts
+through tiny windows must emit one of the model's FIFO scripts."""
 
 from checks import chan_common as cc
 from harness.framework import run_check
@@ -82,6 +94,155 @@ def text_sweep(ctx, quick):
                                 'pktsize': pkt, 'text': text})
 
 
+TEXT_SPEC = None
+
+
+def _text_tlc(tag, writes, pkt, fifo, pertype, invs=(), emit=False):
+    import os
+    from harness import tlc
+    from harness.framework import VERIF
+    spec = os.path.join(VERIF, 'specs', 'Channel')
+    mod = f'Text_MC_{tag}'
+    wr = '<<' + ', '.join(
+        '[dt |-> %d, w |-> <<%s>>]' % (dt, ', '.join(map(str, ws)))
+        for dt, ws in writes) + '>>'
+    with open(os.path.join(spec, mod + '.tla'), 'w') as f:
+        f.write(f'---- MODULE {mod} ----\nEXTENDS Text\nW_{tag} == {wr}\n'
+                '====\n')
+    lines = ['CONSTANTS', f'  Writes <- W_{tag}', f'  Pkt = {pkt}',
+             f'  FifoSender = {"TRUE" if fifo else "FALSE"}',
+             f'  PerTypeDecoder = {"TRUE" if pertype else "FALSE"}',
+             'SPECIFICATION Spec', 'CHECK_DEADLOCK FALSE']
+    lines += [f'INVARIANT {i}' for i in invs]
+    lines.append('INVARIANT EmitScript' if emit else 'VIEW view')
+    cfg = f'_{tag}.cfg'
+    with open(os.path.join(spec, cfg), 'w') as f:
+        f.write('\n'.join(lines) + '\n')
+    try:
+        res = tlc.run(spec, mod, cfg, tag, workers=1 if emit else 8,
+                      timeout=900)
+    finally:
+        os.remove(os.path.join(spec, mod + '.tla'))
+        os.remove(os.path.join(spec, cfg))
+        tlc.cleanup(tag)
+    scripts = []
+    if emit:
+        for line in res.output.splitlines():
+            if line.startswith('"<<\\"SCRIPT'):
+                v = tlc.parse_value(tlc.parse_value(line))
+                scripts.append([{'dt': p['dt'],
+                                 'b': [tuple(x) for x in p['b']]}
+                                for p in v[1]])
+    return res, scripts
+
+
+TEXT_INVS = ['DeliveredIsPrefix', 'NoDecodeError', 'NotMisfiled',
+             'AllDelivered']
+
+
+def text_model(ctx, quick):
+    """specs/Channel/Text.tla: design check, raw-sender replay into real
+    receivers, real-sender conformance."""
+    import random
+    from harness.drivers import text as T
+    rng = random.Random(ctx.seed + 77)
+    # ---- design ----
+    w0 = [(0, [2, 1]), (1, [3]), (0, [2])]
+    for tag, fifo, per, expect in (
+            ('c07_tx_fifo_shared', True, False, None),
+            ('c07_tx_any_shared', False, False, 'NoDecodeError'),
+            ('c07_tx_any_pertype', False, True, None),
+            ('c07_tx_w1', False, True, 'NeverSplit'),
+            ('c07_tx_w2', False, True, 'NeverInterleavedSplit')):
+        invs = TEXT_INVS if expect is None or expect in TEXT_INVS \
+            else [expect]
+        res, _ = _text_tlc(tag, w0, 3, fifo, per, invs)
+        ctx.require_tlc_ok(f'Text {tag}', res, expect_violation=expect)
+    # ---- any SSH peer -> real receiver ----
+    cases = [('utf-8', 'client', w0, 3),
+             ('utf-8', 'client', [(1, [2]), (0, [4]), (1, [3, 1])], 2),
+             ('utf-16-le', 'client', [(0, [2, 4]), (1, [4])], 3),
+             ('utf-8', 'server', [(0, [3, 1]), (0, [4])], 2)]
+    if not quick:
+        cases += [('utf-8', 'client', [(0, [4, 2]), (1, [2, 3]), (0, [1])], 4),
+                  ('utf-8', 'client', [(1, [4]), (1, [2]), (0, [3])], 2),
+                  ('utf-16-be', 'client', [(1, [2, 4]), (0, [4])], 3),
+                  ('utf-32-le', 'client', [(0, [4]), (1, [4])], 3),
+                  ('utf-16-le', 'server', [(0, [4, 2]), (0, [2])], 3),
+                  ('utf-8', 'server', [(0, [2, 3, 4])], 2)]
+    budget = 260 if quick else 2500
+    for ci, (enc, role, writes, pkt) in enumerate(cases):
+        res, scripts = _text_tlc(f'c07_tx_gen{ci}', writes, pkt,
+                                 False, True, emit=True)
+        ctx.require_tlc_ok(f'Text scripts {enc} {role} {writes}', res)
+        ctx.require(scripts, f'no scripts for text case {ci}')
+        chars = T.flatten(writes)
+        exp = T.expected(chars, enc)
+        if len(scripts) > budget:
+            scripts = rng.sample(scripts, budget)
+        for script in scripts:
+            for errors in (('strict',) if quick else ('strict', 'replace')):
+                o = T.recv_case(script, chars, enc, role, errors)
+                split = any(p['b'][-1][1] != chars[p['b'][-1][0] - 1][1]
+                            for p in script)
+                ctx.count(('textrecv', enc, role, errors, str(script)),
+                          nontrivial=split)
+                ok = o['got'] == exp and (o['eof'] or o['closed']) and \
+                    not o['lost'] and o['outcome'] == 'ok'
+                if not ok:
+                    ctx.violation(
+                        {'module': 'Text', 'clause': 'PeerSplit',
+                         'encoding': enc, 'role': role,
+                         'interleaved': len({p['dt'] for p in script}) > 1},
+                        f'C07 text: a peer sent {exp!r} ({enc}) as packets '
+                        f'{T.script_bytes(script, chars, enc)}; the {role} '
+                        f'session received {o["got"]!r} eof={o["eof"]} '
+                        f'lost={o["lost"]} outcome={o["outcome"]}',
+                        replay={'kind': 'textrecv', 'encoding': enc,
+                                'role': role, 'errors': errors,
+                                'writes': writes, 'script': script})
+                if o['loop_exceptions']:
+                    ctx.divergence(f'text recv {script}: loop exception '
+                                   f'{o["loop_exceptions"][0]}')
+        ctx.traces_validated(len(scripts))
+    # ---- real asyncssh sender: emits a FIFO script of the model ----
+    send_cases = [('utf-8', 'server', [(0, [2, 1]), (1, [3]), (0, [4])]),
+                  ('utf-8', 'server', [(1, [4, 4]), (0, [1]), (1, [2])]),
+                  ('utf-16-le', 'server', [(1, [2, 4]), (0, [4, 2])]),
+                  ('utf-8', 'client', [(0, [3, 2]), (0, [4])])]
+    for ci, (enc, role, writes) in enumerate(send_cases):
+        chars = T.flatten(writes)
+        exp = T.expected(chars, enc)
+        total = sum(w for _, w in chars)
+        for pkt in range(1, 6):
+            res, scripts = _text_tlc(f'c07_tx_snd{ci}_{pkt}', writes, pkt,
+                                     True, False, emit=True)
+            ctx.require_tlc_ok(f'Text fifo scripts {writes} pkt={pkt}', res)
+            allowed = {tuple(T.script_bytes(s, chars, enc)) for s in scripts}
+            for win in sorted({pkt, pkt + 1, 2 * pkt + 1, total + 3}):
+                o = T.send_case(writes, chars, enc, win, pkt, role)
+                ctx.count(('textsend', enc, role, str(writes), win, pkt),
+                          nontrivial=len(o['emitted']) > len(writes))
+                if o['got'] != exp or not o['eof']:
+                    ctx.violation(
+                        {'module': 'Text', 'clause': 'TextBoundary',
+                         'encoding': enc, 'role': role, 'window': win,
+                         'pktsize': pkt},
+                        f'C07 text: {role} wrote {exp!r} ({enc}, window '
+                        f'{win}, packet {pkt}); peer session received '
+                        f'{o["got"]!r} eof={o["eof"]} '
+                        f'outcome={o["outcome"]} '
+                        f'loop={o["loop_exceptions"][:1]}',
+                        replay={'kind': 'textsend', 'encoding': enc,
+                                'role': role, 'writes': writes,
+                                'window': win, 'pktsize': pkt})
+                elif tuple(o['emitted']) not in allowed:
+                    ctx.divergence(
+                        f'text sender {role} {writes} window {win} packet '
+                        f'{pkt}: emitted {o["emitted"]} which is not a '
+                        f'behaviour of Text.tla with FifoSender')
+
+
 def main(ctx):
     quick = ctx.tier == 'quick'
     # ---- design check ----
@@ -112,6 +273,7 @@ def main(ctx):
     ]
     cc.replay_all(ctx, 'C07', 'c07', sims, ctx.seed + 7)
     text_sweep(ctx, quick)
+    text_model(ctx, quick)
     ctx.assumptions += [
         'one data unit of the model = one byte (x1) or 1024 bytes (x1k)',
         'writer = server session channel, reader = client session channel; '
